@@ -63,6 +63,8 @@ struct CounterGuard(Arc<AtomicUsize>);
 
 impl Drop for CounterGuard {
     fn drop(&mut self) {
+        #[cfg(feature = "verif")]
+        crate::verif::point(30);
         self.0.fetch_sub(1, Ordering::AcqRel);
     }
 }
@@ -73,6 +75,8 @@ fn worker(
     timeout: Duration,
 ) -> impl FnOnce() {
     move || {
+        #[cfg(feature = "verif")]
+        crate::verif::point(31);
         counter.fetch_add(1, Ordering::AcqRel);
         let _guard = CounterGuard(counter);
         while let Ok(f) = receiver.recv_timeout(timeout) {
@@ -114,6 +118,8 @@ impl AsyncifyPool {
             Ok(_) => Ok(()),
             Err(e) => match e {
                 TrySendError::Full(f) => {
+                    #[cfg(feature = "verif")]
+                    crate::verif::point(32);
                     if self.thread_limit == 0 {
                         panic!("the thread pool is needed but no worker thread is running");
                     } else if self.counter.load(Ordering::Acquire) >= self.thread_limit {
@@ -122,7 +128,14 @@ impl AsyncifyPool {
                             Box::from_raw(Box::into_raw(f).cast())
                         }))
                     } else {
+                        #[cfg(not(feature = "verif"))]
                         std::thread::spawn(worker(
+                            self.receiver.clone(),
+                            self.counter.clone(),
+                            self.recv_timeout,
+                        ));
+                        #[cfg(feature = "verif")]
+                        crate::verif::spawn(worker(
                             self.receiver.clone(),
                             self.counter.clone(),
                             self.recv_timeout,
